@@ -978,7 +978,11 @@ class ExprToAccessC(ExprReducer):
             curobj = CGenArray(cgenobj, element_num,
                                void_type.align,
                                void_type.size)
-            if field_offset == 0:
+            if field_offset == 0 and not (
+                    deref and
+                    isinstance(base_type.objtype,
+                               (ObjCStruct, ObjCUnion, ObjCArray))
+            ):
                 # We point to the start of the sub object,
                 # return it directly
                 return set([curobj])
